@@ -4,8 +4,12 @@ import (
 	"context"
 
 	ipfslog "berty.tech/go-ipfs-log"
+	acipfs "berty.tech/go-orbit-db/accesscontroller/ipfs"
+	"berty.tech/go-orbit-db/cache/cacheleveldown"
 	"berty.tech/go-orbit-db/iface"
 	"berty.tech/go-orbit-db/internal/vstub"
+	"berty.tech/go-orbit-db/internal/vstubodb"
+	"berty.tech/go-orbit-db/stores/eventlogstore"
 )
 
 // VerifC05Reopen: clean close / reopen cycles of a real instance on a
@@ -140,5 +144,154 @@ func VerifC05Reopen() {
 			return
 		}
 		cur = next
+	}
+}
+
+// bootFull starts a real instance through the PUBLIC constructor NewOrbitDB with
+// no keystore and no identity given: the keystore (leveldb under
+// <directory>/<peer id>/keystore) and the identity (idp.CreateIdentity over it,
+// the real go-ipfs-log keystore and orbitdb identity provider; key generation
+// and signatures are symbolic stand-ins) are created by the real code.
+func bootFull(w *sysWorld, name string, dir *string) (*orbitDB, *sysPeer) {
+	p := &sysPeer{w: w, name: name, stores: map[string]Store{}}
+	p.blocks = vstub.NewBlocks(nil)
+	for _, q := range w.peers {
+		if q.name == name {
+			p.blocks = q.blocks
+		}
+	}
+	env := vstubodb.NewEnv(name, 1, "unused", p.blocks, nil)
+	env.IPFS.DagStore = w.dag
+	p.env = env
+	p.id = env.IPFS.Peer
+	p.node = w.net.Node(p.id)
+	opts := &NewOrbitDBOptions{Cache: cacheleveldown.New(nil), DirectChannelFactory: p.node.DirectFactory(),
+		PubSub: p.node, EventBus: env.Bus, PeerID: p.id}
+	if dir != nil {
+		d := vstub.Dir(*dir)
+		opts.Directory = &d
+	}
+	o, err := NewOrbitDB(context.Background(), env.IPFS, opts)
+	if err != nil {
+		return nil, p
+	}
+	odb := o.(*orbitDB)
+	odb.RegisterStoreType("eventlog", eventlogstore.NewOrbitDBEventLogStore)
+	_ = odb.RegisterAccessControllerType(acipfs.NewIPFSAccessController)
+	p.o = odb
+	found := false
+	for i, q := range w.peers {
+		if q.name == name {
+			w.peers[i] = p
+			found = true
+		}
+	}
+	if !found {
+		w.peers = append(w.peers, p)
+	}
+	return odb, p
+}
+
+// VerifC05Identity: "the peer keeps its identity across the restart, so it can
+// still write".  An instance made by NewOrbitDB on a directory creates a
+// database with the default write list (its creator only) and writes; after
+// Close, a new instance on the SAME directory has the same identity (id and
+// public key), reopens the database and can still write; an instance on
+// ANOTHER directory (or with the in-memory default) is a different identity and
+// its write is refused; while the first instance is still open a second one on
+// the same directory cannot take over its keystore.
+func VerifC05Identity() {
+	w := newSysWorld()
+	ctx := context.Background()
+	dir := "/data/alice"
+	o1, p1 := bootFull(w, "alice", &dir)
+	if o1 == nil {
+		vstub.Fail("C05 NewOrbitDB failed")
+		return
+	}
+	id1 := o1.Identity()
+	vstub.Assert(id1 != nil && id1.ID != "" && len(id1.PublicKey) > 0, "C05 harness: the instance has an identity")
+	st, err := o1.Create(ctx, "journal", "eventlog", &CreateDBOptions{IO: p1.env.IO})
+	if err != nil {
+		vstub.Fail("C05 Create failed")
+		return
+	}
+	addr := st.Address().String()
+	first, err := st.(iface.EventLogStore).Add(ctx, []byte("one"))
+	if err != nil {
+		vstub.Fail("C05 the creator cannot write to its own database")
+		return
+	}
+	vstub.Cover("created")
+
+	switch vstub.NdChoice("second-instance", 4) {
+	case 0: // clean restart on the same directory
+		if err := o1.Close(); err != nil {
+			vstub.Fail("C05 Close failed")
+			return
+		}
+		vstub.WaitIdle()
+		o2, p2 := bootFull(w, "alice", &dir)
+		vstub.Assert(o2 != nil, "C05 after Close a new instance starts on the same directory")
+		if o2 == nil {
+			return
+		}
+		id2 := o2.Identity()
+		vstub.Assert(id2.ID == id1.ID, "C05 the peer keeps its identity id across a restart")
+		vstub.Assert(string(id2.PublicKey) == string(id1.PublicKey), "C05 the peer keeps its public key across a restart")
+		rs, err := o2.Open(ctx, addr, &CreateDBOptions{IO: p2.env.IO})
+		if err != nil {
+			vstub.Fail("C05 the database does not reopen")
+			return
+		}
+		if err := rs.Load(ctx, -1); err != nil {
+			vstub.Fail("C05 Load failed")
+			return
+		}
+		vstub.WaitIdle()
+		vstub.Assert(sysHolds(rs, first.GetEntry()), "C05 the acknowledged write is there after the restart")
+		_, werr := rs.(iface.EventLogStore).Add(ctx, []byte("two"))
+		vstub.Assert(werr == nil, "C05 after a restart the peer can still write to its own database")
+		vstub.Assert(rs.OpLog().Len() == 2, "C05 the write after the restart extends the recovered log")
+		vstub.Cover("restarted-same-identity")
+	case 1: // another directory: another identity, which is not a writer
+		_ = o1.Close()
+		vstub.WaitIdle()
+		other := "/data/elsewhere"
+		o2, p2 := bootFull(w, "alice", &other)
+		if o2 == nil {
+			vstub.Fail("C05 NewOrbitDB failed")
+			return
+		}
+		vstub.Assert(o2.Identity().ID != id1.ID, "C05 harness: a fresh directory yields a fresh identity")
+		rs, err := o2.Open(ctx, addr, &CreateDBOptions{IO: p2.env.IO})
+		if err != nil {
+			return
+		}
+		_, werr := rs.(iface.EventLogStore).Add(ctx, []byte("intruder"))
+		vstub.Assert(werr != nil, "C03/C05 an identity other than the creator cannot write to a creator-only database")
+		vstub.Cover("other-directory")
+	case 2: // in-memory default: a fresh identity every time
+		_ = o1.Close()
+		vstub.WaitIdle()
+		o2, _ := bootFull(w, "alice", nil)
+		if o2 == nil {
+			vstub.Fail("C05 NewOrbitDB failed")
+			return
+		}
+		vstub.Assert(o2.Identity().ID != id1.ID, "C05 harness: the in-memory default yields a fresh identity")
+		vstub.Cover("in-memory")
+	case 3: // the first instance is still open: its keystore directory is locked
+		o2, _ := bootFull(w, "alice", &dir)
+		vstub.Assert(o2 == nil, "C05 a second instance cannot take over the keystore of one that is still open")
+		vstub.Cover("still-open")
+		// and once the first one is closed the directory is usable again
+		_ = o1.Close()
+		vstub.WaitIdle()
+		o3, _ := bootFull(w, "alice", &dir)
+		vstub.Assert(o3 != nil, "C18/C05 Close releases the keystore: the directory is reopenable")
+		if o3 != nil {
+			vstub.Assert(o3.Identity().ID == id1.ID, "C05 the peer keeps its identity id across a restart")
+		}
 	}
 }
